@@ -489,3 +489,39 @@ func (c *Check) newBatchDequeue(prefix string) {
 			"every exit of the new-batch handler removes the queue entry (id, BlockHeight) and its pointer — exits of class "+k)
 	}
 }
+
+// queueDeleters: a queue entry (and its pointer) is removed only by the handler that processes that
+// queue at the entry's own height — the new-batch handler for 0x10/0x12, the expired-batch handler for 0x09/0x11.
+func (c *Check) queueDeleters(prefix string) {
+	u := c.feeUnits(prefix)
+	if !u.complete() {
+		return
+	}
+	owner := map[string]*Func{"0x10": u.NB.Closure, "0x12": u.NB.Closure, "0x09": u.EB.Closure, "0x11": u.EB.Closure}
+	n := 0
+	check := func(unit string, sum *Summary) {
+		for _, e := range sum.Effs {
+			if e.Kind != "store" || e.Op != "Delete" {
+				continue
+			}
+			h, ok := owner[e.Family]
+			if !ok {
+				continue
+			}
+			n++
+			in := e.Fn == h
+			for _, nm := range e.Chain {
+				if nm == h.Name {
+					in = true
+				}
+			}
+			c.req(in, prefix+".queue-delete", effConstruct(unit, e), e.Pos,
+				"a queue entry / pointer of family "+e.Family+" is removed only by the handler that scans that queue at the current height (elsewhere the entry's height is not known, so only the pointer would be removed)")
+		}
+	}
+	for _, en := range c.entries(prefix) {
+		check(en.Msg, c.P.SummaryOf(en.Handler))
+	}
+	check("EndBlocker", c.P.SummaryOf(u.EndBlocker))
+	c.req(n >= 4, prefix+".queue-delete", "queue-deletions", token.NoPos, fmt.Sprintf("%d entry-level queue deletions", n))
+}
